@@ -498,6 +498,8 @@ pub fn parse_choice_text(input: &str) -> Result<ParsedChoiceText, CompilerError>
 
     let (trimmed, inline_target) = split_inline_choice_divert(trimmed)?;
     let (start_text, start_tags) = split_text_and_tags(trimmed)?;
+    // Without brackets the whole text (tags included) is both the choice and its output.
+    let selected_tags = start_tags.clone();
     Ok(ParsedChoiceText {
         display_text: start_text.clone(),
         selected_text: if start_text.is_empty() {
@@ -513,6 +515,6 @@ pub fn parse_choice_text(input: &str) -> Result<ParsedChoiceText, CompilerError>
         inline_body_nodes: Vec::new(),
         start_tags,
         choice_only_tags: Vec::new(),
-        selected_tags: Vec::new(),
+        selected_tags,
     })
 }
